@@ -9,7 +9,7 @@ from ..cfg import calls_at
 from ..core import Checker
 from ..effects import DESTRUCTIVE_METHODS, destructive_kind
 from ..loader import Func, norm, walk_expr, walk_own
-from ..prov import call_name, expand1, get_arg, scope_of
+from ..prov import call_name, expand1, expand_txt, get_arg, scope_of
 from .shared_state import check_class_level_state
 
 # (callee name, parameter) positions through which a cache path may legitimately flow
@@ -154,9 +154,9 @@ def _state(ck: Checker) -> None:
 
             ialts = [norm(a) for a in value_alts(g, x, t.elts[2], depth=2) if not isinstance(a, ast.Name)] if len(t.elts) >= 3 else []
             palts = {norm(a) for a in value_alts(g, x, t.elts[0], depth=2)} if len(t.elts) >= 3 else set()
-            oalts = [norm(a) for a in value_alts(g, x, t.elts[1], depth=2)] if len(t.elts) >= 3 else []
+            oalts = list(expand_txt(prog, co, t.elts[1])) if len(t.elts) >= 3 else []
             stat_ok = bool(ialts) and all(any(a in (f"_localfs_info({q})", f"fs.info({q})") for q in palts) for a in ialts)
-            ok = any(o.endswith(".new.oid") for o in oalts) and all(o.endswith(".new.oid") for o in oalts if not o.isidentifier()) and stat_ok
+            ok = bool(oalts) and all(o.endswith(".new.oid") for o in oalts) and stat_ok
             ck.require(ok, "C10.state", co, x, "row is (path, change.new.oid, fresh stat of that path)", f"state row {norm(t)} does not pair the path with the target hash and that path's own stat ({ialts})")
             # only on the success (try-else) branch: not reachable from the CheckoutError handler
             hs = [h for h in g.nodes.values() if h.kind == "handler" and x.loops and x.loops[-1] in h.loops]
@@ -239,14 +239,38 @@ def _linkkind(ck: Checker) -> None:
     prog = ck.prog
     fn = prog.func("hashfile.checkout", "_needs_relink")
     n = 0
-    for name in ("is_symlink", "is_hardlink", "is_copy"):
-        for d in scope_of(fn).get(name):
+    g0 = ck.cfg(fn)
+    mparam = "meta" if fn.has_param("meta") else fn.pos_params[2]
+
+    # the link-kind flags, whatever they are called: the local tested together with each configured link type
+    def kind_flag(*consts):
+        for t in g0.nodes.values():
+            e = t.ast
+            if t.kind != "test" or not isinstance(e, ast.Compare) or len(e.ops) != 1:
+                continue
+            c0 = e.comparators[0]
+            vals = {x.value for x in (c0.elts if isinstance(c0, (ast.Tuple, ast.List, ast.Set)) else [c0]) if isinstance(x, ast.Constant)}
+            if not vals or not vals <= set(consts) or not isinstance(e.ops[0], (ast.Eq, ast.In)):
+                continue
+            cur, seen = t, set()
+            while cur is not None and cur.id not in seen:
+                seen.add(cur.id)
+                nxt = [g0.nodes[d] for lab, d in cur.succ if lab == "T"]
+                cur = nxt[0] if nxt and nxt[0].kind == "test" else None
+                if cur is not None and isinstance(cur.ast, ast.Name) and any(d.kind == "assign" for d in scope_of(fn).get(cur.ast.id)):
+                    return cur.ast.id
+        return None
+
+    f_sym, f_hard, f_copy = kind_flag("symlink"), kind_flag("hardlink"), kind_flag("copy", "reflink")
+    flags = {f_sym: "is_symlink", f_hard: "is_hardlink", f_copy: "is_copy"}
+    for name in (f_sym, f_hard, f_copy):
+        for d in scope_of(fn).get(name or ""):
             if d.kind != "assign":
                 continue
             n += 1
             names = {x.id for x in walk_expr(d.value) if isinstance(x, ast.Name)}
-            ok = names <= {"meta", "is_symlink", "is_hardlink", "is_copy"}
-            ck.require(ok, "C10.linkkind", fn, d.node, f"{name} depends only on the workspace file's own metadata", f"`{name} = {norm(d.value)}` depends on {sorted(names - {'meta'})}: a file hard-linked to something other than the cache would be treated as an independent copy and never relinked")
+            ok = names <= {mparam, f_sym, f_hard, f_copy}
+            ck.require(ok, "C10.linkkind", fn, d.node, f"{flags[name]} depends only on the workspace file's own metadata", f"`{name} = {norm(d.value)}` depends on {sorted(names - {mparam})}: a file hard-linked to something other than the cache would be treated as an independent copy and never relinked")
     ck.floor("C10.linkkind", n, 3, "link-kind classifications in _needs_relink")
     # ... and that metadata is the one stat'ed from the workspace file (change.old), not the target entry's
     n_call = 0
@@ -257,7 +281,7 @@ def _linkkind(ck: Checker) -> None:
                 if not any(t.fq == fn.fq for t in ck.res.resolve(caller, c)):
                     continue
                 n_call += 1
-                ma = get_arg(c, fn, "meta")
+                ma = get_arg(c, fn, mparam)
                 from ..an import value_alts
 
                 alts = [norm(a) for a in value_alts(gc_, x, ma, depth=3)] + [norm(a) for a in expand1(prog, caller, ma, levels=2)] if ma is not None else []
@@ -265,6 +289,15 @@ def _linkkind(ck: Checker) -> None:
                 ck.require(ok, "C10.linkkind", caller, x, "the link kind is judged from the workspace file's own stat (change.old.meta)",
                            f"the link kind of the workspace file is judged from {alts}: the target entry's recorded metadata says nothing about how the workspace file is linked, so hardlinks/symlinks into the cache are kept when copies were asked for",
                            construct=f"{norm(c)[:50]} / meta argument")
+                # ... and the hardlink identity test compares against the stat of the cache object itself
+                cparams = [p for p in fn.params if p != mparam and any(isinstance(a, ast.Attribute) and a.attr == "inode" and isinstance(a.value, ast.Name) and a.value.id == p for a in ast.walk(fn.node))]
+                for cp in cparams:
+                    ca = get_arg(c, fn, cp)
+                    calts = [norm(a) for a in value_alts(gc_, x, ca, depth=3)] + [norm(a) for a in expand1(prog, caller, ca, levels=2)] if ca is not None else []
+                    okc = any(a.endswith("new.cache_meta") or a.endswith(".cache_meta") for a in calts) and not any(a.endswith(".meta") for a in calts)
+                    ck.require(okc, "C10.linkkind", caller, x, "a hardlink is identified by comparing inodes with the cache object's own stat (change.new.cache_meta)",
+                               f"the inode the workspace file is compared with comes from {calts}, not from the cache object's stat: a file hard-linked to something outside the cache (an old cache, a sibling copy) is taken for a link into the cache and never relinked",
+                               construct=f"{norm(c)[:50]} / cache_meta argument")
     ck.floor("C10.linkkind", n_call, 1, "calls of _needs_relink")
     # is_copy is the complement of the two link kinds (decided by truth table, not by spelling)
     def beval(e, env):
@@ -277,13 +310,13 @@ def _linkkind(ck: Checker) -> None:
             return all(vals) if isinstance(e.op, ast.And) else any(vals)
         raise KeyError(norm(e))
 
-    for d in scope_of(fn).get("is_copy"):
+    for d in scope_of(fn).get(f_copy or ""):
         if d.kind == "assign":
             try:
-                okc = all(beval(d.value, {"is_symlink": a, "is_hardlink": b}) == ((not a) and (not b)) for a in (False, True) for b in (False, True))
+                okc = all(beval(d.value, {f_sym: a, f_hard: b}) == ((not a) and (not b)) for a in (False, True) for b in (False, True))
             except KeyError:
                 okc = False
             ck.require(okc, "C10.linkkind", fn, d.node, "copy = neither symlink nor hardlink", f"is_copy = {norm(d.value)} is not 'neither symlink nor hardlink'", construct="is_copy definition")
-    for d in scope_of(fn).get("is_hardlink"):
+    for d in scope_of(fn).get(f_hard or ""):
         if d.kind == "assign":
             ck.require("nlink" in norm(d.value), "C10.linkkind", fn, d.node, "hardlink = link count above one", f"is_hardlink = {norm(d.value)}", construct="is_hardlink definition")
